@@ -110,9 +110,12 @@ def run_crash_variant(case):  # noqa: C901
                 common.rmtree(rundir)
             if len(vios) >= 12:
                 break
-        return common.case_result(sig=name, nontrivial=n >= 2, counters=counters, violations=vios,
-                                  sample=_sample(case, events, {'n_boundaries': n}),
-                                  extra={'name': name, 'n': n})
+        res = common.case_result(sig=name, nontrivial=n >= 2, counters=counters, violations=vios,
+                                 sample=_sample(case, events, {'n_boundaries': n}),
+                                 extra={'name': name, 'n': n})
+        res['distinct'] = len(shapes)  # distinct (variant, boundary) placements whose post-mortem state was judged
+        res['evaluations'] = max(1, counters['oracle-evaluations'])
+        return res
     finally:
         if base:
             common.rmtree(base)
@@ -197,8 +200,11 @@ def run_fault_variant(case):  # noqa: C901
                     common.rmtree(rundir)
             if len(vios) >= 12:
                 break
-        return common.case_result(sig=name, nontrivial=len(elig) >= 2, counters=counters, violations=vios,
-                                  sample=_sample(case, events, {'n_fault_points': len(elig)}))
+        res = common.case_result(sig=name, nontrivial=len(elig) >= 2, counters=counters, violations=vios,
+                                 sample=_sample(case, events, {'n_fault_points': len(elig)}))
+        res['distinct'] = counters['faults-injected']  # distinct (variant, call, errno) single-fault runs
+        res['evaluations'] = max(1, counters['faults-injected'])
+        return res
     finally:
         if base:
             common.rmtree(base)
